@@ -188,8 +188,8 @@ func (e *evaluator) applies(objType string, cond *nast.Named) bool {
 	if c == objType {
 		return true
 	}
-	if objType == e.u.Model.Query && !e.u.Type(objType).Intro {
-		return e.u.Model.IsPossible(c, objType)
+	if objType == e.u.Model.Query {
+		return e.u.Model.IsPossible(c, objType) // an interface / union the query root belongs to
 	}
 	return false
 }
